@@ -39,10 +39,12 @@ Calls ==
   \cup [name : {"replace", "replace_first"}, args : {<<Str(a), Str(b)>> : a \in {<<97>>, <<32>>, <<195, 169>>, <<97, 97>>}, b \in {<<>>, <<66>>, <<97, 97>>}}]
   \cup [name : {"slice"}, args : {<<IntV(i)>> : i \in (0 - 3)..(N + 1)} \cup {<<IntV(i), IntV(l)>> : i \in (0 - 3)..(N + 1), l \in 0..3}]
   \cup [name : {"truncate"}, args : {<<IntV(i)>> : i \in 0..(N + 1)}
-                                   \cup {<<IntV(i), Str(e)>> : i \in 0..(N + 1), e \in {<<>>, <<97, 98>>, <<46>>}}]
+                                   \cup {<<IntV(i), Str(e)>> : i \in 0..(N + 1), e \in {<<>>, <<97, 98>>, <<46>>, <<195, 169>>, <<226, 128, 166>>, <<97, 195, 169>>}}]
   \cup [name : {"truncatewords"}, args : {<<IntV(i)>> : i \in 1..3} \cup {<<IntV(i), Str(<<33>>)>> : i \in 1..2}]
 
-Init == s \in Strs /\ call \in Calls
+\* a few longer receivers for the filters that cut: room for every length argument and for the ellipsis
+LongStrs == { <<97, 98, 99, 100, 101, 102>>, <<97, 195, 169, 98, 240, 159, 152, 128, 99, 100>>, <<97, 32, 98, 98, 32, 99, 32, 100>> }
+Init == call \in Calls /\ s \in Strs \cup (IF call.name \in {"truncate", "slice", "truncatewords"} /\ "then" \notin DOMAIN call THEN LongStrs ELSE {})
 Next == UNCHANGED vars
 
 R1 == Filter(call.name, Str(s), call.args)
